@@ -35,8 +35,12 @@ type Case struct {
 	Ops    []Op  `json:"ops"`
 }
 
-var vspecs = [][]float64{{0, 1, 2}, {-5, 5}, {10, 2, 7}, {}}
-var dspecs = [][]time.Duration{{0, time.Millisecond, time.Second}, {-time.Second, time.Second}, {5, 3, 9}}
+// the pools contain groups of DIFFERENT specs that collide in the library's bucket cache (equal sum of
+// element bit patterns, the kind is not part of the identity): values {1,4} ~ {0.5,8}; durations
+// {1s,4s} ~ {2s,3s} ~ {5s}, {5,3,9} ~ {8,9}; across kinds {-2,2} ~ {-1s,1s} (both sum to 0 mod 2^64)
+var vspecs = [][]float64{{0, 1, 2}, {-5, 5}, {10, 2, 7}, {}, {1, 4}, {0.5, 8}, {-2, 2}}
+var dspecs = [][]time.Duration{{0, time.Millisecond, time.Second}, {-time.Second, time.Second}, {5, 3, 9},
+	{time.Second, 4 * time.Second}, {2 * time.Second, 3 * time.Second}, {5 * time.Second}, {8, 9}}
 
 func gen(t *rapid.T) Case {
 	c := Case{Prefix: rapid.OneOf(rapid.Just(pbt.S("")), pbt.PlainString()).Draw(t, "prefix"), Shards: uint(rapid.SampledFrom([]int{1, 2, 16}).Draw(t, "shards"))}
@@ -420,7 +424,7 @@ func run(c Case) (pbt.Outcome, error) {
 func TestC11(t *testing.T) {
 	pbt.Main(t, pbt.Prop[Case]{
 		ID: "C11", Name: "snapshot",
-		Rule: "rapid-generated histories (1..30 ops) on a test scope (shard count 1/2/16): derive up to 6 scopes by SubScope/Tagged over a delimiter-free alphabet, record on counters (int64 extremes), gauges (hostile float bits), timers, value and duration histograms (fixed specs incl. unsorted and empty), take snapshots at arbitrary points, mutate a held snapshot through its accessors (tags, timer slices, histogram maps, deleting entries), close subscopes and keep recording on them. Oracle: every snapshot read through Name()/Tags()/Value*() equals the reference tally as a set of entries; a held snapshot re-read after further recording equals its own earlier view; mutation of a snapshot never shows in a later one; closed test scopes stay visible; children of closed scopes are inert. Non-trivial: >=2 scopes with different tag sets and recording after a snapshot. Distinct: FNV-64 of the case JSON.",
+		Rule: "rapid-generated histories (1..30 ops) on a test scope (shard count 1/2/16): derive up to 6 scopes by SubScope/Tagged over a delimiter-free alphabet, record on counters (int64 extremes), gauges (hostile float bits), timers, value and duration histograms (fixed specs incl. unsorted, empty and groups of different specs that collide in the internal bucket cache, also across kinds), take snapshots at arbitrary points, mutate a held snapshot through its accessors (tags, timer slices, histogram maps, deleting entries), close subscopes and keep recording on them. Oracle: every snapshot read through Name()/Tags()/Value*() equals the reference tally as a set of entries; a held snapshot re-read after further recording equals its own earlier view; mutation of a snapshot never shows in a later one; closed test scopes stay visible; children of closed scopes are inert. Non-trivial: >=2 scopes with different tag sets and recording after a snapshot. Distinct: FNV-64 of the case JSON.",
 		Gen:  gen, Run: run,
 	})
 }
